@@ -122,3 +122,112 @@ Print Assumptions cardinality_fed_exactly.
 Theorem quantile_fed_exactly : forall s ms, run_one (AQuant s) ms = KFedN (all_numbers s ms).
 Proof. exact quantile_fed_exactly_all. Qed.
 Print Assumptions quantile_fed_exactly.
+
+(* ---------- Merge: shards aggregated separately, then Bucket.Merge (aggregations.go:76-84) ----------
+   bluge.MultiSearch itself does not merge: multisearch.go runs one collector over the concatenated
+   searchers, which aggs_ignore_paging covers.  Merge is the API for callers who aggregate shards
+   on their own.  merge_exact, calculator by calculator: *)
+
+Theorem merge_sum_exact : forall s ms1 ms2 q1 q2,
+  all_numbers s ms1 = map XFin q1 -> all_numbers s ms2 = map XFin q2 ->
+  exists q q', merge (a_sum s) (run_one (a_sum s) ms1) (run_one (a_sum s) ms2) = KVal (XFin q) /\
+               run_one (a_sum s) (ms1 ++ ms2) = KVal (XFin q') /\
+               (q == sumQ (q1 ++ q2))%Q /\ (q' == sumQ (q1 ++ q2))%Q.
+Proof. exact merge_sum_exact_all. Qed.
+Print Assumptions merge_sum_exact.
+
+Theorem merge_count_exact : forall ms1 ms2,
+  exists q, merge a_count (run_one a_count ms1) (run_one a_count ms2) = KVal (XFin q) /\
+            (q == inject_Z (Z.of_nat (length (ms1 ++ ms2))))%Q.
+Proof. exact merge_count_exact_all. Qed.
+Print Assumptions merge_count_exact.
+
+(* the merged Min / Max meet the specification min_exact / max_exact give for the concatenation *)
+Theorem merge_min_exact : forall s ms1 ms2 q1 q2,
+  all_numbers s ms1 = map XFin q1 -> all_numbers s ms2 = map XFin q2 ->
+  let v := merge (a_min s) (run_one (a_min s) ms1) (run_one (a_min s) ms2) in
+  (q1 ++ q2 = [] -> v = KVal (XInf false)) /\
+  (q1 ++ q2 <> [] -> exists m, v = KVal (XFin m) /\ In m (q1 ++ q2) /\ forall q, In q (q1 ++ q2) -> (m <= q)%Q).
+Proof. exact merge_min_exact_all. Qed.
+Print Assumptions merge_min_exact.
+
+Theorem merge_max_exact : forall s ms1 ms2 q1 q2,
+  all_numbers s ms1 = map XFin q1 -> all_numbers s ms2 = map XFin q2 ->
+  let v := merge (a_max s) (run_one (a_max s) ms1) (run_one (a_max s) ms2) in
+  (q1 ++ q2 = [] -> v = KVal (XInf true)) /\
+  (q1 ++ q2 <> [] -> exists m, v = KVal (XFin m) /\ In m (q1 ++ q2) /\ forall q, In q (q1 ++ q2) -> (q <= m)%Q).
+Proof. exact merge_max_exact_all. Qed.
+Print Assumptions merge_max_exact.
+
+(* Avg (w = None) and WeightedAvg: numerator and denominator of the concatenation *)
+Theorem merge_wavg_exact : forall s w ms1 ms2 p1 p2,
+  weighted_values s w ms1 = map (fun p => (XFin (fst p), XFin (snd p))) p1 ->
+  weighted_values s w ms2 = map (fun p => (XFin (fst p), XFin (snd p))) p2 ->
+  exists a b, merge (AWAvg s w) (run_one (AWAvg s w) ms1) (run_one (AWAvg s w) ms2) = KWAvg (XFin a) (XFin b) /\
+              (a == sum_vw (p1 ++ p2))%Q /\ (b == sum_w (p1 ++ p2))%Q.
+Proof. exact merge_wavg_exact_all. Qed.
+Print Assumptions merge_wavg_exact.
+
+(* sketches: the merged calculator stands for a sketch fed the concatenation; for the real
+   hyperloglog / t-digest this is the hypothesis sketch_merge of AggsProofs.SketchMerge
+   (smerge (sketch a) (sketch b) = sketch (a ++ b)); the engine compares with a sketch fed directly *)
+Theorem merge_cardinality_exact : forall t ms1 ms2,
+  merge (ACard t) (run_one (ACard t) ms1) (run_one (ACard t) ms2) = run_one (ACard t) (ms1 ++ ms2).
+Proof. exact merge_card_exact_all. Qed.
+Print Assumptions merge_cardinality_exact.
+
+Theorem merge_quantile_exact : forall s ms1 ms2,
+  merge (AQuant s) (run_one (AQuant s) ms1) (run_one (AQuant s) ms2) = run_one (AQuant s) (ms1 ++ ms2).
+Proof. exact merge_quant_exact_all. Qed.
+Print Assumptions merge_quantile_exact.
+
+(* ranges: bucket-wise merge of the two shards' nested calculators over the shard's part of the
+   bucket (the bucket of the concatenation is the concatenation of the parts: range_members_app) *)
+Theorem merge_range_exact : forall s ranges subs ms1 ms2,
+  merge (ARange s ranges subs) (run_one (ARange s ranges subs) ms1) (run_one (ARange s ranges subs) ms2) =
+  KBuckets (map (fun r => merge_subs subs (run_subs subs (range_members in_range (numbers s) r ms1))
+                                          (run_subs subs (range_members in_range (numbers s) r ms2))) ranges).
+Proof. exact merge_range_exact_all. Qed.
+Print Assumptions merge_range_exact.
+
+Theorem merge_date_range_exact : forall f ranges subs ms1 ms2,
+  merge (ADateRange f ranges subs) (run_one (ADateRange f ranges subs) ms1) (run_one (ADateRange f ranges subs) ms2) =
+  KBuckets (map (fun r => merge_subs subs (run_subs subs (range_members in_date_range (dates f) r ms1))
+                                          (run_subs subs (range_members in_date_range (dates f) r ms2))) ranges).
+Proof. exact merge_date_range_exact_all. Qed.
+Print Assumptions merge_date_range_exact.
+
+(* terms, untrimmed shards: total = matches of the concatenation; one bucket per term of either
+   shard; the bucket of a term of both shards is the merge of the shards' nested calculators;
+   `other` then follows from total and the returned counts as for a single search (check_obs) *)
+Theorem merge_terms_exact : forall t size subs ms1 ms2,
+  exists bks1 bks2 bks,
+    run_one (ATerms t size subs) ms1 = KTerms bks1 (Z.of_nat (length ms1)) /\
+    run_one (ATerms t size subs) ms2 = KTerms bks2 (Z.of_nat (length ms2)) /\
+    merge (ATerms t size subs) (KTerms bks1 (Z.of_nat (length ms1))) (KTerms bks2 (Z.of_nat (length ms2))) =
+      KTerms bks (Z.of_nat (length (ms1 ++ ms2))) /\
+    NoDup (map fst bks) /\
+    (forall nm, In nm (map fst bks) <-> exists h, In h (ms1 ++ ms2) /\ In nm (tvalues t h)) /\
+    (forall nm cs, In (nm, cs) bks ->
+       let c1 := run_subs subs (terms_members t nm ms1) in
+       let c2 := run_subs subs (terms_members t nm ms2) in
+       (In nm (map fst bks1) /\ In nm (map fst bks2) /\ cs = merge_subs subs c1 c2) \/
+       (In nm (map fst bks1) /\ ~ In nm (map fst bks2) /\ cs = c1) \/
+       (~ In nm (map fst bks1) /\ In nm (map fst bks2) /\ cs = c2)).
+Proof. exact merge_terms_exact_all. Qed.
+Print Assumptions merge_terms_exact.
+
+(* with a trimmed side (Finish keeps `size` buckets, terms.go:141-145) the statement is false, as
+   for every distributed terms aggregation: a:2 b:1 trimmed to [a] merged with b:2 reports b = 2,
+   the concatenation has b = 3.  Replayed on the implementation: known finding
+   C16-merge-terms-trimmed. *)
+Example merge_terms_trimmed_refuted :
+  let a := ATerms (VSField 0) 1 [(count_id, a_count)] in
+  let s1 := [mk_term_hit 1 97; mk_term_hit 2 97; mk_term_hit 3 98] in
+  let s2 := [mk_term_hit 1 98; mk_term_hit 2 98] in
+  let f1 := finish_with a (run_one a s1) (OTerms [([97], [])] 1) in
+  let f2 := finish_with a (run_one a s2) (OTerms [([98], [])] 0) in
+  merge a f1 f2 = KTerms [([97], [KVal (XFin 2)]); ([98], [KVal (XFin 2)])] 5 /\
+  run_one a (s1 ++ s2) = KTerms [([97], [KVal (XFin 2)]); ([98], [KVal (XFin 3)])] 5.
+Proof. exact terms_merge_trimmed_ex. Qed.
+Print Assumptions merge_terms_trimmed_refuted.
